@@ -22,7 +22,7 @@ import si_model
 
 def stft_configs(tier):
     Ls = range(2, 6) if tier == "quick" else range(2, 9)
-    return [(L, S, st) for L in Ls for S in range(1, L + 1) for st in stubs.STYLES]
+    return [(L, S, st) for L in Ls for S in range(1, L + 1) for st in stubs.ALL_STYLES]
 
 
 def chunkings_for(N, L, S, rng, ncomp_max, nsamp):
@@ -61,7 +61,7 @@ def record_stft(run, tier, rng):
                 for op in T.history_for_composition(comp, empties):
                     rec.run(op)
                 tid += 1
-                traces.append({"tid": tid, "cfg": {"L": L, "S": S, "st": st},
+                traces.append({"tid": tid, "cfg": {"L": L, "S": S, "st": stubs.spec_style(st)},
                                "events": [{k: e[k] for k in ("a", "err", "fr", "st") if k in e} | ({"c": e["c"]} if "c" in e else {}) for e in rec.events]})
                 meta[tid] = (L, S, st, N, comp, empties)
                 run.evaluations += 1
@@ -87,7 +87,7 @@ def record_stft(run, tier, rng):
                     if vals is None or vals.shape != full.shape or not np.allclose(vals, full, rtol=1e-9, atol=1e-12):
                         run.violation({"kind": "fbf_values_differ_from_full", "L": L, "S": S, "style": st, "N": N, "chunk_size": cs})
                 tid += 1
-                traces.append({"tid": tid, "cfg": {"L": L, "S": S, "st": st},
+                traces.append({"tid": tid, "cfg": {"L": L, "S": S, "st": stubs.spec_style(st)},
                                "events": [{k: e[k] for k in ("a", "err", "fr", "st", "n", "cs")} for e in rec.events]})
                 meta[tid] = (L, S, st, N, "fbf all chunk sizes", ())
     return traces, meta
@@ -151,6 +151,73 @@ def stft_model_check(run, tier):
     run.extra.setdefault("canaries", []).append({"module": "StftStream", "variant": "MinLenRule=FALSE", "refuted_by": r.violated})
 
 
+def count_level(run, tier):
+    """StftCount: TLC for a small configuration, Apalache inductive invariant for unbounded N and chunk
+    sizes at real sizes.  A stalled or missing Apalache is 'not attempted', never a failure."""
+    r = common.tlc("StftCount", "StftCount_tlc.cfg", workers=4, timeout=600, extra=())
+    if r.violated:
+        run.violation({"kind": "model_" + r.violated, "module": "StftCount", "detail": r.errtext[-2000:]})
+    mods = ["MC_StftCount_400_160_1", "MC_StftCount_6_1_2"] if tier == "quick" else \
+        ["MC_StftCount_400_160_0", "MC_StftCount_400_160_1", "MC_StftCount_400_160_2", "MC_StftCount_5_2_1", "MC_StftCount_6_1_2", "MC_StftCount_201_67_1"]
+    from concurrent.futures import ThreadPoolExecutor
+    jobs = [(m, "Init", 0) for m in mods] + [(m, "IndInit", 1) for m in mods]
+    with ThreadPoolExecutor(max_workers=6) as ex:
+        res = list(ex.map(lambda j: common.apalache(j[0], j[1], "IndInv", j[2]), jobs))
+    out = []
+    for (m, init, ln), verdict in zip(jobs, res):
+        out.append({"module": m, "obligation": "%s => IndInv" % init if ln == 0 else "IndInv /\\ Next => IndInv'", "verdict": verdict})
+        if verdict == "violated":
+            run.violation({"kind": "apalache_inductive_invariant_violated", "module": m, "init": init, "length": ln})
+    run.extra["apalache"] = out
+    run.extra["apalache_discharged"] = sum(1 for o in out if o["verdict"] == "ok")
+    if any(o["verdict"].startswith("not_attempted") for o in out):
+        run.not_decided.append("Apalache obligations not attempted: " + "; ".join("%s %s" % (o["module"], o["verdict"][:60]) for o in out if o["verdict"] != "ok"))
+
+
+def real_size_count_traces(run, tier, rng):
+    """Real sizes, count level: recorded executions validated by TraceStftCount."""
+    from pydrobert.speech import compute, filters
+    nprng = np.random.RandomState(rng.randint(0, 2 ** 31 - 1))
+    traces, tid = [], 0
+    for (rate, Lms, Sms) in ((16000, 25, 10), (8000, 25, 10), (8000, 20.125, 8.375)):
+        for st, (style, kaldi) in enumerate((("causal", False), ("centered", False), ("centered", True))):
+            bank = filters.TriangularOverlappingFilterBank("mel", num_filts=3, sampling_rate=rate)
+            c = compute.STFTFrameComputer(bank, frame_length_ms=Lms, frame_shift_ms=Sms, frame_style=style, kaldi_shift=kaldi)
+            L, S = c.frame_length, c.frame_shift
+            for _ in range(12 if tier == "quick" else 120):
+                N = int(nprng.choice([0, 1, S // 2, L // 2, L // 2 + 1, L - 1, L, L + S // 2, nprng.randint(1, 6 * L), 16000]))
+                x = nprng.randn(N)
+                events, p = [], 0
+                while p < N or nprng.rand() < 0.2:
+                    k = int(min(N - p, nprng.choice([0, 1, S - 1, S, S + 1, L, L + 1, 1024, nprng.randint(0, 2 * L)])))
+                    out = c.compute_chunk(x[p:p + k])
+                    p += k
+                    events.append({"a": "chunk", "c": k, "nret": int(out.shape[0]), "st": bool(c.started),
+                                   "p": {"bl": int(c._buf_len), "ff": bool(c._first_frame)}})
+                    if len(events) > 60:
+                        break
+                if p < N:
+                    out = c.compute_chunk(x[p:])
+                    events.append({"a": "chunk", "c": N - p, "nret": int(out.shape[0]), "st": bool(c.started),
+                                   "p": {"bl": int(c._buf_len), "ff": bool(c._first_frame)}})
+                out = c.finalize()
+                events.append({"a": "finalize", "c": 0, "nret": int(out.shape[0]), "st": bool(c.started),
+                               "p": {"bl": int(c._buf_len), "ff": bool(c._first_frame)}})
+                tid += 1
+                traces.append({"tid": tid, "cfg": {"L": L, "S": S, "st": stubs.spec_style(st)}, "N": N, "events": events})
+                run.evaluations += 1
+    d_rej, r = common.validate_traces_parallel("TraceStftCount", "TraceStftCount.cfg", traces, shards=4)
+    run.traces += len(traces)
+    run.states += r.distinct
+    run.transitions += r.generated
+    byid = {t["tid"]: t for t in traces}
+    for (tid_, line, clause) in d_rej:
+        t = byid[tid_]
+        run.violation({"kind": "stft_real_size_count_" + clause, "cfg": t["cfg"], "N": t["N"], "event": line, "trace": t})
+    run.extra["real_size_count_traces"] = len(traces)
+    run.sample({"real_size_count_trace": {k: traces[3][k] for k in ("cfg", "N")}, "events": traces[3]["events"][:4]})
+
+
 def run(tier, seed):
     run = common.Run("C01", tier, seed)
     rng = random.Random(seed)
@@ -170,8 +237,10 @@ def run(tier, seed):
                        "trace": next(t for t in traces if t["tid"] == tid)})
     for t in traces[:2] + traces[len(traces) // 2: len(traces) // 2 + 1]:
         run.sample(t)
-    # 3. real sizes, value level
+    # 3. real sizes, value level and count level (TraceStftCount), unbounded N (Apalache)
     real_size_values(run, tier, rng)
+    real_size_count_traces(run, tier, rng)
+    count_level(run, tier)
     # 4. short integration
     si_model.record_and_validate(run, tier, rng, prop="C01")
     run.extra["stft_traces"] = len(traces)
